@@ -23,6 +23,29 @@ def inc (len e n : Nat) : Upd Nat :=
   else if !isHuge e && free e ≤ len - n then .set (newWith (free e + n)) else .skip
 end Huge
 
+/-- Undo part of `casRange`: entries `j-1, j-2, …` (`cnt` of them) back from `new` to `cur`;
+    a failing roll-back is the `expect`/`assert!` of the source. -/
+def casRangeUndo (k : Kind) (base : Nat) (cur new : k.Val) (msg : String) : Nat → Nat → Prog Unit
+  | 0, _ => pure ()
+  | cnt+1, j => do
+    let r ← Prog.casK k (base + (j - 1)) new cur
+    match r with
+    | .ok _ => casRangeUndo k base cur new msg cnt (j - 1)
+    | .error _ => Prog.panic msg
+
+/-- Compare-exchange the entries `base + j, base + j + 1, …` (`cnt` of them) from `cur` to `new`;
+    on the first failure roll back what was done since `base` and answer `false`
+    (`compare_exchange_all`, and the row loop of `set_first_zero_rows`). -/
+def casRange (k : Kind) (base : Nat) (cur new : k.Val) (msg : String) : Nat → Nat → Prog Bool
+  | 0, _ => pure true
+  | cnt+1, j => do
+    let r ← Prog.casK k (base + j) cur new
+    match r with
+    | .ok _ => casRange k base cur new msg cnt (j + 1)
+    | .error _ => do
+      casRangeUndo k base cur new msg j j
+      return false
+
 /-- all-ones / all-zeros row -/
 def rowMax : BitVec 64 := BitVec.allOnes 64
 
@@ -109,24 +132,6 @@ def Bitfield.setFirstZeroRows (h : Nat) (order : Nat) : Prog (Res Nat) :=
     | cnt+1 => do
       let v ← loadK .row (rowIdx g h r)
       if v = (0 : BitVec 64) then allZero cnt (r + 1) else return false
-  let rec undo (cnt : Nat) (k : Nat) : Prog Unit :=
-    match cnt with
-    | 0 => pure ()
-    | cnt+1 => do
-      let r ← casK .row (rowIdx g h (k - 1)) rowMax (0 : BitVec 64)
-      match r with
-      | .ok _ => undo cnt (k - 1)
-      | .error _ => Prog.panic "Failed undo search"
-  let rec setRows (cnt : Nat) (base j : Nat) : Prog Bool :=
-    match cnt with
-    | 0 => pure true
-    | cnt+1 => do
-      let r ← casK .row (rowIdx g h (base + j)) (0 : BitVec 64) rowMax
-      match r with
-      | .ok _ => setRows cnt base (j + 1)
-      | .error _ => do
-        undo j (base + j)
-        return false
   -- `self.data.chunks(num_rows)`: the last chunk may be shorter
   let rec chunks (cnt : Nat) (ci : Nat) : Prog (Res Nat) :=
     match cnt with
@@ -136,7 +141,7 @@ def Bitfield.setFirstZeroRows (h : Nat) (order : Nat) : Prog (Res Nat) :=
       let len := min numRows (g.rows - base)
       let z ← allZero len base
       if z then
-        let ok ← setRows len base 0
+        let ok ← casRange .row (rowIdx g h base) (0 : BitVec 64) rowMax "Failed undo search" len 0
         if ok then return .ok (ci * numRows) else chunks cnt (ci + 1)
       else chunks cnt (ci + 1)
   chunks ((g.rows + numRows - 1) / numRows) 0
@@ -206,23 +211,7 @@ def Bitfield.setRange (h : Nat) (s e : Nat) (v : Bool) : Prog Unit :=
 
 /-- `compare_exchange_all` on the `n` entries starting at child `c` of tree `t` -/
 def casAll (t c n : Nat) (cur new : Nat) : Prog Bool :=
-  let rec undo (cnt j : Nat) : Prog Unit :=
-    match cnt with
-    | 0 => pure ()
-    | cnt+1 => do
-      let r ← casK .huge (hugeIdx g t (c + (j - 1))) new cur
-      match r with
-      | .ok _ => undo cnt (j - 1)
-      | .error _ => Prog.panic "undo failed"
-  let rec go (cnt i : Nat) : Prog Bool :=
-    match cnt with
-    | 0 => pure true
-    | cnt+1 => do
-      let r ← casK .huge (hugeIdx g t (c + i)) cur new
-      match r with
-      | .ok _ => go cnt (i + 1)
-      | .error _ => do undo i i; return false
-  go n 0
+  casRange .huge (hugeIdx g t c) cur new "undo failed" n 0
 
 /-- `Lower::get_at` -/
 def Lower.getAt (frame order : Nat) : Prog (Res Unit) :=
